@@ -36,24 +36,25 @@ type wireFrame struct {
 }
 
 type callPlan struct {
-	bulk    int       // C12: where the bulk of a shaped reply sits (0,1: result; 2: response header; 3: half in the cid)
-	reuse   *callPlan // use the FContext of this earlier call of the same caller again
-	ctx     frugal.FContext
-	sameCtx []*callPlan // every plan that went out on this plan's FContext object (itself included)
-	id      int
-	tag     string
-	method  string
-	args    []any
-	outcome string // ok | ex1 | ex2 | undeclared | appex
-	appType int32
-	msg     string
-	ret     any
-	oneway  bool
-	reqHdr  map[string]string
-	cid     string
-	timeout time.Duration
-	respHdr map[string]string
-	dur     time.Duration
+	shapedReqHdr map[string]string // C12: request headers added by the size shaping
+	bulk         int               // C12: where the bulk of a shaped reply sits (0,1: result; 2: response header; 3: half in the cid)
+	reuse        *callPlan         // use the FContext of this earlier call of the same caller again
+	ctx          frugal.FContext
+	sameCtx      []*callPlan // every plan that went out on this plan's FContext object (itself included)
+	id           int
+	tag          string
+	method       string
+	args         []any
+	outcome      string // ok | ex1 | ex2 | undeclared | appex
+	appType      int32
+	msg          string
+	ret          any
+	oneway       bool
+	reqHdr       map[string]string
+	cid          string
+	timeout      time.Duration
+	respHdr      map[string]string
+	dur          time.Duration
 	// observed on the server
 	handlerRuns int
 	seenArgs    []any
@@ -599,6 +600,10 @@ func (env *e2eEnv) invoke(p *callPlan) {
 	}
 	if p.shape != nil {
 		p.shape(ctx.RequestHeaders())
+		for k, v := range p.shapedReqHdr {
+			ctx.AddRequestHeader(k, v)
+			p.reqHdr[k] = v
+		}
 	}
 	p.invokeStep, p.invokeAt = env.s.Step, env.s.Now()
 	c := env.client
